@@ -73,7 +73,7 @@ def required(tier):
             "call_cache_entries_checked": 200, "ped_unequal_read_runs": 10, "tempered_runs": 5, "call_cache_high_ploidy_runs": 3,
             "cli_threshold_settings_compared": 12, "cli_records_compared": 60, "cli_tempered_settings": 2,
             "refit_assemble_compared": 15, "refit_pedigree_compared": 15, "refit_llk_cells_checked": 1000,
-            "cold_only_traces_checked": 20, "refit_read_sets_with_all_gap_reads": 8}
+            "cold_only_traces_checked": 20, "refit_read_sets_with_all_gap_reads": 8, "long_locus_runs": 6}
 
 
 # ---------------------------------------------------------------------------
@@ -93,6 +93,41 @@ def make_instance(rng, small=False):
     temps = np.sort(np.concatenate([rng.uniform(0.1, 0.9, size=n_t - 1), [1.0]]))
     return dict(ploidy=ploidy, n_alleles=n_alleles.astype(np.int8), reads=reads, counts=counts, temps=temps,
                 F=float(rng.choice([0.0, 0.1])), g0=gen.gen_genotype(rng, ploidy, n_alleles))
+
+
+def make_long_instance(rng):
+    """33-160 SNVs (session 4): cache keys as long as ploidy x 160 alleles, reads covering windows of 8-30 sites so that every
+    likelihood stays a normal double."""
+    ploidy = int(rng.integers(2, 7))
+    n_pos = int(rng.choice([33, 48, 64, 65, 96, 128, 129, 160]))
+    n_alleles = rng.choice([2, 2, 2, 3, 4], size=n_pos)
+    n_nucl = int(n_alleles.max())
+    truth = gen.gen_genotype(rng, ploidy, n_alleles, dup_rate=0.3)
+    n_reads = int(rng.integers(6, 25))
+    reads = np.full((n_reads, n_pos, n_nucl), np.nan)
+    err = float(rng.choice([0.0024, 0.05]))
+    for r in range(n_reads):
+        w = int(rng.integers(8, 31))
+        lo = int(rng.integers(0, n_pos - w + 1))
+        hap = truth[int(rng.integers(ploidy))]
+        for j in range(lo, lo + w):
+            if rng.random() < 0.1:
+                continue
+            na = int(n_alleles[j])
+            call = int(hap[j]) if rng.random() > 0.05 else int(rng.integers(na))
+            row = np.zeros(n_nucl)
+            row[:na] = err / max(1, na - 1)
+            row[call] = 1 - err
+            reads[r, j] = row
+    counts = gen.gen_counts(rng, n_reads)
+    n_t = int(rng.integers(1, 4))
+    temps = np.sort(np.concatenate([rng.uniform(0.1, 0.9, size=n_t - 1), [1.0]]))
+    g0 = truth.copy()
+    for _ in range(int(rng.integers(0, 6))):
+        h, j = int(rng.integers(ploidy)), int(rng.integers(n_pos))
+        g0[h, j] = int(rng.integers(int(n_alleles[j])))
+    return dict(ploidy=ploidy, n_alleles=n_alleles.astype(np.int8), reads=reads, counts=counts, temps=temps,
+                F=float(rng.choice([0.0, 0.1])), g0=g0.astype(np.int8), long=True)
 
 
 def pack(I):
@@ -209,12 +244,16 @@ def run_trace(tier, seed, spec, col):
     monitors.ensure_compiled()
     for r in range(spec["runs"]):
         rng = gen.rng_for(seed, ID, spec["shard"], r)
-        I = make_instance(rng)
+        is_long = r % 4 == 3
+        I = make_long_instance(rng) if is_long else make_instance(rng)
         orc = Oracle(I["reads"], I["counts"])
         if orc.llk(I["g0"]) == -math.inf:
             continue
         s = int(rng.integers(1, 2**31 - 1))
         steps = int(rng.choice([50, 150, 400])) if tier == "quick" else int(rng.choice([150, 600, 3000]))
+        if is_long:
+            steps = 40 if tier == "quick" else 150
+            col.count("long_locus_runs")
         rep = {"instance": pack(I), "seed": s, "steps": steps}
         if len(I["temps"]) > 1:
             col.count("tempered_runs")
@@ -259,6 +298,8 @@ def run_trace(tier, seed, spec, col):
                     break
         # M2: resized caches force flushes; all trajectories identical
         m2_steps = min(steps, 60 if tier == "quick" else 150)
+        if is_long:
+            m2_steps = 3 if tier == "quick" else 6   # the Python body of one iteration costs seconds on 100+ sites
         base = run_assembler_m2(I, m2_steps, s, None, col)
         for ms in (64, 128, 512):
             gt, lt = run_assembler_m2(I, m2_steps, s, ms, col)
